@@ -192,13 +192,15 @@ CHECKS["C12"] = dict(
     category="proof",
     text="from_bank_code: the real body is executed on an ABSTRACT candidate list (any length, any valid BICs; pyvc "
          "abstract lists) and proved to return a member - an 8-character one if any, else one with branch XXX, else the "
-         "first - and to raise InvalidBankCode exactly for the empty list. candidates_from_bank_code (non-empty BICs, "
-         "primary first, order kept) is proved on symbolic groups of BOUNDED size (<= 3 quick / 4 thorough). The bundled "
+         "first - and to raise InvalidBankCode exactly for the empty list. candidates_from_bank_code is executed on an "
+         "ABSTRACT registry group of any size (sort key, filter, map for one generic entry; sorted() assumed stable) and "
+         "again on symbolic groups of bounded size. registry.build_index(accumulate=True) is executed on an ABSTRACT bank "
+         "list (loop body for one generic entry; grouping meta-theorem assumed and cross-checked natively). The bundled "
          "registry is evaluated exhaustively: all 22,753 keys, 7,769 BICs, unlisted pairs, IBAN-side accessors, "
          "build_index == grouping spec, invertibility.",
     design_ref="DESIGN.md C12, 0.2",
-    note="Unbounded: the selection rule. Bounded in group size: the candidate order (sorted() assumed stable). "
-         "Exhaustive on the bundled data only: build_index, invertibility, IBAN-side accessors.",
+    note="Unbounded: the selection rule, the candidates list, the per-entry contract of build_index (assumed: sorted() "
+         "stable, grouping meta-theorem). Exhaustive on the bundled data only: invertibility, IBAN-side accessors.",
     technique="contract-based deductive verification of the real lookup bodies (pyvc abstract lists / bounded symbolic "
               "groups, z3) + exhaustive evaluation of the lookup contract on the bundled registry")
 CHECKS["C13"] = dict(
